@@ -236,7 +236,7 @@ func c11Body(double bool) func(rc *RunCtx) {
 					k = "getnowait"
 				case 5, 6:
 					k = "gettimeout"
-					arg = []int{5, 0, 1, 2, 30, 200}[simrt.Choose(6)]
+					arg = []int{5, 0, 1, 2, 30, 200, 350, 1000}[simrt.Choose(8)]
 				case 7:
 					k = "clear"
 				}
@@ -254,6 +254,11 @@ func c11Body(double bool) func(rc *RunCtx) {
 			t := simrt.GoNamed("prod"+strconv.Itoa(p+1), func() {
 				id := simrt.Cur().ID
 				for i := range pl.kind {
+					// producers are not always busy: pauses from a millisecond to beyond the
+					// longest timed get (elements arriving after a timed get has expired)
+					if g := []int{0, 0, 0, 0, 0, 1, 50, 400, 1200}[simrt.ChooseF(9)]; g > 0 {
+						simrt.Sleep(time.Duration(g) * time.Millisecond)
+					}
 					op := d.begin(id, pl.kind[i]+qsuffix(double, pl.w[i]), pl.arg[i], "")
 					var r bool
 					if pl.kind[i] == "put" {
@@ -400,8 +405,8 @@ func c11Body(double bool) func(rc *RunCtx) {
 				}
 			})
 		}
-		// quiescence: let everything run, including timed gets
-		simrt.Settle(int64(2 * time.Second))
+		// quiescence: let everything run, including producers' pauses and timed gets
+		simrt.Settle(int64(12 * time.Second))
 		// no stranding: nobody may be parked in a blocking get while the queue holds elements
 		sz := api.size()
 		d.FinalSize = sz
